@@ -134,6 +134,14 @@ pub fn jobs_for(prop: &str, thorough: bool) -> Vec<Job> {
                 let mut c2 = c;
                 c2.delivery = Delivery::Causal;
                 js.push(job(s, "merge laws on pool (causal)", c2, None, 1000));
+                if ["OS", "MO", "MM", "MMO", "MMM"].contains(&s) {
+                    let mut t = template_job(s, mon::LAWS, Delivery::Causal, false, 1500);
+                    t.cfg.merges = true;
+                    t.cfg.laws = 16;
+                    t.cfg.nobs = 0;
+                    t.sweep = None;
+                    js.push(t);
+                }
             }
         }
         "C03" => {
@@ -144,6 +152,14 @@ pub fn jobs_for(prop: &str, thorough: bool) -> Vec<Job> {
                 c.laws = 12;
                 c.policy = 255;
                 js.push(job(s, "ops mixed with merges vs model; merge(a,b) vs op path", c, None, 1500));
+                if ["OS", "MO", "MM", "MMO", "MMM"].contains(&s) {
+                    let mut t = template_job(s, mon::HYBRID | mon::SPEC, Delivery::Causal, false, 1500);
+                    t.cfg.merges = true;
+                    t.cfg.laws = 16;
+                    t.cfg.nobs = 0;
+                    t.sweep = None;
+                    js.push(t);
+                }
                 if weakest(s) != Delivery::Causal {
                     let mut c2 = c;
                     c2.delivery = weakest(s);
@@ -291,6 +307,12 @@ pub fn jobs_for(prop: &str, thorough: bool) -> Vec<Job> {
                     c.stale_merges = has_merge(s);
                     c.policy = 255;
                     js.push(job(s, label, c, None, 1200));
+                }
+                if ["OS", "MO", "MM", "MMO", "MMM"].contains(&s) {
+                    let mut t = template_job(s, mon::DUP | mon::STALE | mon::STRUCT, Delivery::Fifo, false, 600);
+                    t.cfg.merges = true;
+                    t.cfg.stale_merges = true;
+                    js.push(t);
                 }
             }
         }
